@@ -78,7 +78,7 @@ def _run(ev, work, thorough, pid):
     # ---- 3. end to end ----
     total_cases = 0
     for rgs, progs, classes, zero, masked in (("RGsSingle2", "ProgsSingle", ["int", "int~f"], False, True),
-                                              ("RGsSingle2", "ProgsSingle", ["float", "ts", "ts~s"], False, False),
+                                              ("RGsSingle2", "ProgsSingle", ["float", "ts"], False, False),
                                               ("RGsSingle2", "ProgsSingle", ["str"], True, True),
                                               ("RGsPair2" if thorough else "RGsPairQ", "ProgsPair", ["int"], False, True),
                                               ("RGsPairCols", "ProgsPair", ["int"], False, True),
